@@ -410,6 +410,34 @@ def fallback_guards(chk, F, fn, fk):
                                                           (" (the guard does not test %s)" % missing) if got is not None else " (the arm has no guard over the written fields)"))
 
 
+def era_rule(chk, F):
+    """(4) `BC` turns the year y into 1 - y: that is a date only for y >= 1 (there is no year 0 BC, and `-44 BC` is not 45 CE), and
+    there has to be a year to turn.  In the BC arm of `adbc` the store to out.year must be a `Some(..)` built behind a test
+    `year >= 1` (or `> 0`); passing an Option through stores nothing when no year was matched and still answers Ok."""
+    pd = F.find(CORE, "parsing::datetime::parse_date")
+    h = F.hir_of(pd)
+    arm = None
+    for m in hir_walk(h["body"]):
+        if m.get("k") == "Match" and m.get("src") == "Normal":
+            for a in m["arms"]:
+                if H.pat_str(a["pat"]).strip("'\"") == "adbc":
+                    arm = a
+    if arm is None:
+        raise AnchorLost("parse_date: `adbc` arm not found")
+    bc = [a for m in hir_walk(arm["body"]) if m.get("k") == "Match" for a in m["arms"] if a.get("guard") and "bc" in H.expr_str(a["guard"], 200).lower() and "\"ad\"" not in H.expr_str(a["guard"], 200).lower()]
+    if len(bc) != 1:
+        raise AnchorLost("parse_date: expected one BC arm under `adbc`, found %d" % len(bc))
+    body = bc[0]["body"]
+    tests = [n for n in hir_walk(body) if n.get("k") == "Binary" and n.get("op") in ("Ge", "Gt") and n["b"].get("k") == "Lit" and
+             ((n["op"] == "Ge" and n["b"]["lit"].get("v") == 1) or (n["op"] == "Gt" and n["b"]["lit"].get("v") == 0))]
+    stores = [n for n in hir_walk(body) if n.get("k") == "Assign" and n["lhs"].get("k") == "Field" and n["lhs"].get("name") == "year"]
+    built = all(n["rhs"].get("k") == "Call" and str((n["rhs"]["f"].get("r") or {}).get("path", "")).endswith("Option::Some") for n in stores)
+    chk.decide(bool(tests) and len(stores) == 1 and built, "literal-fields", "rink_core::parsing::datetime::parse_date", "era-needs-a-positive-year", "%s:%d" % (pd.file, bc[0]["line"]),
+               "BC stores Some(1 - year) only for a year >= 1",
+               "BC is applied to whatever out.year holds: `#0 Jan 1 BC#` denotes 1 CE, `#-44 Mar 15 BC#` 45 CE, and a pattern in which no `year` was "
+               "matched before `adbc` accepts BC without any effect")
+
+
 def literal_fields(chk, F):
     """A written field of a date literal is either honoured or refused, never silently replaced:
     (1) in `attempt`, the result of Parsed::to_fixed_offset is not defaulted with unwrap_or/unwrap_or_else (that reads an offset
@@ -427,6 +455,7 @@ def literal_fields(chk, F):
                "an out-of-range offset is an error; UTC is used only when no offset was written",
                "the result of to_fixed_offset() is defaulted with %s: `#2020-01-01 10:00 +9900#` is read as UTC instead of being refused" % defaulted)
     fallback_guards(chk, F, fn, fk)
+    era_rule(chk, F)
     pd = F.find(CORE, "parsing::datetime::parse_date")
     h = F.hir_of(pd)
     # the `sec` arm: every inner arm that stores out.second is bounded
